@@ -31,7 +31,7 @@ def loop (src range page size : Nat) : List (Option Nat) → Nat → AResult × 
     else (AResult.panic, [])
   | some a :: rest, start =>
     if start ≤ src + range then
-      if absDiff a src ≤ range then (AResult.ok a, [AEvent.mmap start size (some a)])
+      if absDiff a src < range then (AResult.ok a, [AEvent.mmap start size (some a)])
       else
         let r := loop src range page size rest (start + page)
         (r.1, AEvent.mmap start size (some a) :: AEvent.munmap a size :: r.2)
